@@ -50,7 +50,8 @@ impl Tier {
     pub fn pickn(&self, quick: u64, thorough: u64) -> u64 {
         match self {
             Tier::Quick => (quick * crate::util::env_u64("VERIF_QUICK_SCALE", 8).max(1)).min(thorough),
-            Tier::Thorough => thorough,
+            // the thorough figure was sized for minutes; VERIF_THOROUGH_SCALE (default 4) deepens it
+            Tier::Thorough => thorough * crate::util::env_u64("VERIF_THOROUGH_SCALE", 4).max(1),
         }
     }
 }
